@@ -29,6 +29,7 @@ import (
 	minttypes "github.com/sentinel-official/hub/v12/x/mint/types"
 	nodetypes "github.com/sentinel-official/hub/v12/x/node/types"
 	plantypes "github.com/sentinel-official/hub/v12/x/plan/types"
+	providertypes "github.com/sentinel-official/hub/v12/x/provider/types"
 	sessiontypes "github.com/sentinel-official/hub/v12/x/session/types"
 	subscriptiontypes "github.com/sentinel-official/hub/v12/x/subscription/types"
 )
@@ -183,9 +184,33 @@ func main() {
 				i, j := []uint64{0, 1, 255, 256, 1<<32 - 1, 1 << 32, 1<<63 - 1, 1 << 63, 1<<64 - 1}[r.Intn(9)], uint64(r.Int63())
 				fn := []string{"node.NodeForInactiveAtKey", "subscription.SubscriptionForInactiveAtKey", "subscription.PayoutForNextAtKey",
 					"session.SessionForInactiveAtKey", "mint.InflationKey", "subscription.AllocationKey", "session.SessionForAllocationKey",
-					"subscription.PayoutForAccountByNodeKey", "plan.PlanForProviderKey", "node.NodeForPlanKey", "deposit.DepositKey"}[r.Intn(11)]
+					"subscription.PayoutForAccountByNodeKey", "plan.PlanForProviderKey", "node.NodeForPlanKey", "deposit.DepositKey",
+					"node.ActiveNodeKey", "node.InactiveNodeKey", "provider.ActiveProviderKey", "provider.InactiveProviderKey", "plan.ActivePlanKey"}[r.Intn(16)]
+				if r.Intn(2) == 0 {
+					a = a[:1+r.Intn(min(len(a), 6))] // short addresses as well
+				}
 				emit(fmt.Sprintf("key f=%s t=%s a=%s b=%s i=%d j=%d", fn, t.String(), hx(a), hx(b), i, j), try(func() string {
 					var k []byte
+					build := func(a, b []byte, i, j uint64) []byte {
+						switch fn {
+						case "node.ActiveNodeKey":
+							return nodetypes.ActiveNodeKey(a)
+						case "node.InactiveNodeKey":
+							return nodetypes.InactiveNodeKey(a)
+						case "provider.ActiveProviderKey":
+							return providertypes.ActiveProviderKey(a)
+						case "provider.InactiveProviderKey":
+							return providertypes.InactiveProviderKey(a)
+						case "plan.ActivePlanKey":
+							return plantypes.ActivePlanKey(i)
+						}
+						return nil
+					}
+					if k1 := build(a, b, i, j); k1 != nil {
+						// a key must still be what it was after another key of the same kind has been built
+						_ = build(b, a, j, i)
+						return "ok " + hx(k1)
+					}
 					switch fn {
 					case "node.NodeForInactiveAtKey":
 						k = nodetypes.NodeForInactiveAtKey(tm, a)
